@@ -90,12 +90,14 @@ SchemasD ==
            GRule("g1", Ent(1,1,Bare("k", <<107>>),IntT)), [GRule("g1", Ent(1,2,Bare("k", <<107>>),TstrT)) EXCEPT !.op = "//="]>> }
   \cup { <<Rule("root", Ty(<<MapT(<<<<[k |-> "name", lo |-> 1, hi |-> 1, n |-> "g1", args |-> <<>>]>>>>)>>)),
            GRule("g1", Ent(1,1,Bare("a", A),IntT)), [GRule("g1", Ent(o[1],o[2],Bare("b", B),TstrT)) EXCEPT !.op = "//="]>> : o \in {<<1,1>>, <<0,1>>} }
+  \cup { <<Rule("root", Ty(<<MapT(<<<<Ent(1,1,Bare("a", A),IntT), [k |-> "name", lo |-> 1, hi |-> 1, n |-> "g1", args |-> <<>>]>>>>)>>)),
+           GRule("g1", Ent(1,1,Bare("b", B),IntT)), [GRule("g1", Ent(1,1,Bare("b", B),TstrT)) EXCEPT !.op = "//="]>> }
   \cup { <<Rule("root", Ty(<<Ref("a")>>)), Rule("a", Ty(<<Ref("b")>>)), Rule("b", Ty(<<Ref("a")>>))>>,
          <<Rule("root", Ty(<<Ref("a")>>)), Rule("a", Ty(<<Ref("b"), Ref("int")>>)), Rule("b", Ty(<<Ref("a")>>))>>,
          <<Rule("root", Ty(<<ArrT(<<<<Ent(0,-1,NoKey,Ty(<<Ref("root")>>))>>>>)>>))>>,
          <<[name |-> "root", kind |-> "type", op |-> "=", params |-> <<>>, t |-> Ty(<<[k |-> "ref", n |-> "p", args |-> <<Ref("int")>>]>>)],
            [name |-> "p", kind |-> "type", op |-> "=", params |-> <<"T">>, t |-> Ty(<<ArrT(<<<<Ent(0,-1,NoKey,Ty(<<Ref("T")>>))>>>>)>>)]>> }
-ValuesD == {Mp(<<P(Tx(A), I(1))>>), Mp(<<P(Tx(B), Tx(A))>>), Mp(<<>>), Mp(<<P(Tx(A), I(1)), P(Tx(B), Tx(A))>>), I(1), Tx(A), Nul, Arr(<<>>), Arr(<<I(1)>>), Arr(<<Tx(A)>>), Arr(<<I(1), Tx(A)>>), Arr(<<I(1), I(2)>>), Arr(<<Tx(A), Tx(A)>>), Arr(<<Arr(<<>>)>>), Arr(<<I(1), Tx(A), I(2)>>)}
+ValuesD == {Mp(<<P(Tx(A), Tx(A)), P(Tx(B), Tx(A))>>), Mp(<<P(Tx(A), I(1)), P(Tx(B), I(2))>>), Mp(<<P(Tx(A), I(1))>>), Mp(<<P(Tx(B), Tx(A))>>), Mp(<<>>), Mp(<<P(Tx(A), I(1)), P(Tx(B), Tx(A))>>), I(1), Tx(A), Nul, Arr(<<>>), Arr(<<I(1)>>), Arr(<<Tx(A)>>), Arr(<<I(1), Tx(A)>>), Arr(<<I(1), I(2)>>), Arr(<<Tx(A), Tx(A)>>), Arr(<<Arr(<<>>)>>), Arr(<<I(1), Tx(A), I(2)>>)}
 
 Schemas == CASE Scope = "A" -> SchemasA [] Scope = "B" -> SchemasB [] Scope = "C" -> SchemasC [] Scope = "D" -> SchemasD
 Values == CASE Scope = "A" -> ValuesA [] Scope = "B" -> ValuesB [] Scope = "C" -> ValuesC [] Scope = "D" -> ValuesD
